@@ -22,7 +22,7 @@ func (h *Hash) UnmarshalGQL(v interface{}) error {
 		return fmt.Errorf("hashes must be strings")
 	}
 
-	*h = v.(Hash)
+	*h = Hash(v.(string))
 
 	if !h.IsValid() {
 		return fmt.Errorf("invalid hash")
